@@ -1,2 +1,12 @@
 import PowHsm.Props.C14
 #print axioms PowHsm.Props.C14.fields_preserved
+#print axioms PowHsm.Props.C14.inputs_preserved
+#print axioms PowHsm.Props.C14.script_shape
+#print axioms PowHsm.Props.C14.clear_idempotent
+#print axioms PowHsm.Props.C14.signature_independent
+#print axioms PowHsm.Props.C14.clear_refuses_iff
+#print axioms PowHsm.Props.C14.unsign_refuses_iff
+#print axioms PowHsm.Props.C14.unsign_idempotent
+#print axioms PowHsm.Props.C14.unsign_wf
+#print axioms PowHsm.Props.C14.relayed_fixed_point
+#print axioms PowHsm.Props.C14.undecodable_tx_refused
